@@ -750,3 +750,99 @@ func execC05Order(t *testing.T, c C05Order) (v Verdict) {
 }
 
 func TestC05Order(t *testing.T) { checkProp(t, "C05", "order", genC05Order, execC05Order) }
+
+// ---- C05 abandon: replies of calls whose caller has gone must not reach a later call ---------------
+
+type C05Abandon struct {
+	N     int    `json:"n"`     // unary calls issued one after the other; all but the last are abandoned while their handler runs
+	Order []byte `json:"order"` // order in which the handlers are released
+	Ser   bool   `json:"ser"`
+	Stats bool   `json:"stats,omitempty"`
+	Big   bool   `json:"big"`
+}
+
+func genC05Abandon(t *rapid.T) C05Abandon {
+	return C05Abandon{N: rapid.IntRange(2, 6).Draw(t, "n"), Order: rapid.SliceOfN(rapid.Byte(), 0, 6).Draw(t, "order"), Ser: rapid.Bool().Draw(t, "ser"), Stats: rapid.IntRange(0, 3).Draw(t, "stats") == 0, Big: rapid.Bool().Draw(t, "big")}
+}
+
+func execC05Abandon(t *testing.T, c C05Abandon) (v Verdict) {
+	type res struct {
+		reply []byte
+		err   error
+		done  bool
+	}
+	results := make([]res, c.N)
+	mk := func(i int, tag byte) []byte {
+		b := []byte{tag, byte(i)}
+		if c.Big {
+			for len(b) < 3000 {
+				b = append(b, byte(i)+1)
+			}
+		}
+		return b
+	}
+	r := kit.Bubble(t, func() {
+		sched := kit.NewSched()
+		svc := kit.NewSvc()
+		svc.Unary("a", func(ctx context.Context, req []byte) ([]byte, error) {
+			i := int(req[1])
+			sched.Park(nil, fmt.Sprintf("h%d", i)) // slow, and not watching its context
+			return mk(i, 'R'), nil
+		})
+		w := kit.NewWorld(kit.Topo{Kind: "direct", Serialize: c.Ser, Clients: 1, Stats: c.Stats}, svc, nil, nil)
+		var wg sync.WaitGroup
+		for i := 0; i < c.N; i++ {
+			i := i
+			ctx, cancel := context.WithCancel(context.Background())
+			defer cancel()
+			wg.Add(1)
+			go func() {
+				defer wg.Done()
+				rep, err := kit.Invoke(ctx, w.Conn(0), "a", mk(i, 'Q'))
+				results[i] = res{rep, err, true}
+			}()
+			kit.Settle() // the request has arrived, its handler is busy
+			if i < c.N-1 {
+				cancel() // the caller gives up
+				kit.Settle()
+			}
+		}
+		left := make([]int, c.N)
+		for i := range left {
+			left[i] = i
+		}
+		for step := 0; len(left) > 0; step++ {
+			k := 0
+			if step < len(c.Order) {
+				k = int(c.Order[step]) % len(left)
+			}
+			sched.ReleaseGate(fmt.Sprintf("h%d", left[k]))
+			left = append(left[:k], left[k+1:]...)
+			kit.Settle()
+		}
+		wg.Wait()
+		w.Shutdown()
+		kit.Settle()
+	})
+	if r.Panic != nil {
+		v.failf("panic: %v\n%s", r.Panic, r.Stack)
+	}
+	for i := 0; i < c.N; i++ {
+		switch {
+		case !results[i].done:
+			v.failf("call %d never returned", i)
+		case i < c.N-1 && results[i].err == nil:
+			if !bytes.Equal(results[i].reply, mk(i, 'R')) {
+				v.failf("abandoned call %d returned a reply that is not its own", i)
+			}
+		case i == c.N-1 && results[i].err != nil:
+			v.failf("call %d (never abandoned) failed: %v", i, results[i].err)
+		case i == c.N-1 && !bytes.Equal(results[i].reply, mk(i, 'R')):
+			v.failf("call %d got the reply of call %d: the late reply of a call whose caller had gone was delivered to it", i, int(results[i].reply[1]))
+		}
+	}
+	v.Info = kit.CaseInfo{Labels: []string{"abandon", fmt.Sprintf("abandon.byref=%v", !c.Ser)}, NonTrivial: true, Key: fmt.Sprintf("%+v", c), Sample: c}
+	return
+}
+
+func TestC05Abandon(t *testing.T) { checkProp(t, "C05", "abandon", genC05Abandon, execC05Abandon) }
